@@ -176,6 +176,8 @@ impl Property for C12 {
             "after_training_history",
             "after_training_with_dropout",
             "eval_ge_300",
+            "width_ge_8192",
+            "output_activation_reset",
         ]
     }
 
@@ -274,6 +276,8 @@ impl Property for C12 {
         stats.probe("fraction_rule", !softmax && out_count > 1);
         stats.probe("accuracy_strictly_between_0_and_1", false);
         stats.probe("mean_bitwise_equal", false);
+        stats.probe("width_ge_8192", case.net.shapes().map(|v| v.iter().any(|s| s.count() >= 8192)).unwrap_or(false));
+        stats.probe("output_activation_reset", case.net.built_last_act.is_some());
         stats.probe("after_training_history", case.pre.is_some());
         stats.probe("after_training_with_dropout", case.pre.is_some() && case.net.has_dropout());
         stats.probe(&format!("objective_{:?}", case.net.objective), true);
